@@ -1,1 +1,208 @@
-import BigtreeModel
+import BigtreeModel.Iter
+import BigtreeProofs.Lemmas.Iter
+/-!
+# C04 — traversals visit each node once, in the documented order, honouring filters
+
+Model: `BigtreeModel/Iter.lean` (implementation-shaped `preImpl`, `postImpl`, `levelImpl`,
+`zigImpl`, the grouped variants, `inorderImpl`). Specification: gate the tree first (`gateL`
+removes exactly the subtrees rooted at nodes that exceed `max_depth` or satisfy the stop
+condition), then traverse the obvious way (`pre`, `post`, `layersL`, `alternate`), then filter.
+All statements are about node identities (`Tree.id`), for every tree, every start depth `d`,
+every filter/stop predicate and every `max_depth` — no bound on size, depth or fan-out.
+-/
+
+namespace C04
+open Iter
+
+/-- pre-order iterator = filter of the pre-order of the gated tree -/
+theorem preorder_eq (c : Cfg) (d : Nat) (t : Tree) :
+    (preImpl c d t).map Tree.id = (preL (gateL c d [t])).filter c.filt :=
+  preImpl_ids c d t
+
+/-- post-order iterator = filter of the post-order of the gated tree -/
+theorem postorder_eq (c : Cfg) (d : Nat) (t : Tree) :
+    (postImpl c d t).map Tree.id = (postL (gateL c d [t])).filter c.filt :=
+  postImpl_ids c d t
+
+/-- level-order iterator = depth layers of the gated tree, left to right, filtered
+    (the fuel `height t` given by the public entry point suffices) -/
+theorem levelorder_eq (c : Cfg) (d : Nat) (t : Tree) :
+    (levelorder c d t).map Tree.id = ((layersL (gateL c d [t])).flatten).filter c.filt := by
+  unfold levelorder
+  rw [levelImpl_ids, layersUpTo_flatten_ge]
+  have := heightL_gateL_le c d [t]
+  simpa [height.heightL] using this
+
+/-- zigzag iterator = depth layers of the gated tree with every second layer reversed, filtered -/
+theorem zigzag_eq (c : Cfg) (d : Nat) (t : Tree) :
+    (zigzag c d t).map Tree.id = ((alternate false (layersL (gateL c d [t]))).flatten).filter c.filt := by
+  unfold zigzag
+  have h := zigImpl_ids c (height t) d false [t]
+  simp only [Bool.false_eq_true, if_false] at h
+  rw [h, alternate_layersUpTo_flatten_ge]
+  have := heightL_gateL_le c d [t]
+  simpa [height.heightL] using this
+
+/-- the grouped level-order flattens to the ungrouped one -/
+theorem levelgroup_flatten (c : Cfg) (d : Nat) (t : Tree) :
+    (levelordergroup c d t).flatten = levelorder c d t :=
+  levelGroup_flatten c (height t) d [t]
+
+/-- the grouped zigzag flattens to the ungrouped one -/
+theorem zigzaggroup_flatten (c : Cfg) (d : Nat) (t : Tree) :
+    (zigzaggroup c d t).flatten = zigzag c d t :=
+  zigGroup_flatten c (height t) d false [t]
+
+/-- group `k` is exactly layer `k` of the gated tree (filtered); there is one group per kept
+    layer, plus at most one trailing group (empty: all candidates of that depth were stopped) -/
+theorem levelgroup_eq (c : Cfg) (d : Nat) (t : Tree) :
+    (levelordergroup c d t).map (·.map Tree.id)
+      = ((List.range (levelordergroup c d t).length).map fun k =>
+          (layer.layerL k (gateL c d [t])).filter c.filt) ∧
+    height.heightL (gateL c d [t]) ≤ (levelordergroup c d t).length ∧
+    (levelordergroup c d t).length ≤ height.heightL (gateL c d [t]) + 1 := by
+  refine ⟨?_, ?_⟩
+  · have := levelGroup_layers c (height t) d [t]
+    simp only [layersUpTo, List.map_map] at this
+    exact this
+  · have ht : 0 < height t := height_pos t
+    exact levelGroup_length c (height t) d [t] (by simp [height.heightL]) ht
+
+/-- same for zigzag groups, with every second group reversed -/
+theorem zigzaggroup_eq (c : Cfg) (d : Nat) (t : Tree) :
+    (zigzaggroup c d t).map (·.map Tree.id)
+      = (alternate false ((List.range (zigzaggroup c d t).length).map fun k =>
+          layer.layerL k (gateL c d [t]))).map (·.filter c.filt) ∧
+    height.heightL (gateL c d [t]) ≤ (zigzaggroup c d t).length ∧
+    (zigzaggroup c d t).length ≤ height.heightL (gateL c d [t]) + 1 := by
+  refine ⟨?_, ?_⟩
+  · have := zigGroup_layers c (height t) d false [t]
+    simpa [layersUpTo, zigzaggroup] using this
+  · have hl := zigGroup_length_eq c (height t) d false [t]
+    simp only [Bool.false_eq_true, if_false] at hl
+    unfold zigzaggroup
+    rw [hl]
+    exact levelGroup_length c (height t) d [t] (by simp [height.heightL]) (height_pos t)
+
+/-- in-order on binary trees with empty slots: left subtree, node, right subtree of the tree
+    cut at `max_depth`, filtered -/
+theorem inorder_eq (filt : Nat → Bool) (md d : Nat) (t : BTree) :
+    inorderImpl filt md d t = (inorder (bgate md d t)).filter filt :=
+  inorderImpl_eq filt md d t
+
+/-! ### each node exactly once -/
+
+/-- without a filter, pre-order yields a permutation of … itself being the reference listing:
+    the nodes of the gated tree; it is duplicate-free whenever identities are distinct -/
+theorem preorder_perm_nodes (c : Cfg) (d : Nat) (t : Tree) (hall : ∀ i, c.filt i = true) :
+    ((preImpl c d t).map Tree.id).Perm (preL (gateL c d [t])) := by
+  rw [preorder_eq]
+  rw [List.filter_eq_self.2 (fun i _ => hall i)]
+
+theorem postorder_perm_pre (c : Cfg) (d : Nat) (t : Tree) :
+    ((postImpl c d t).map Tree.id).Perm ((preImpl c d t).map Tree.id) := by
+  rw [preorder_eq, postorder_eq]
+  exact (postL_perm_preL _).filter _
+
+theorem levelorder_perm_pre (c : Cfg) (d : Nat) (t : Tree) :
+    ((levelorder c d t).map Tree.id).Perm ((preImpl c d t).map Tree.id) := by
+  rw [preorder_eq, levelorder_eq]
+  exact (layers_perm_preL _).filter _
+
+theorem zigzag_perm_pre (c : Cfg) (d : Nat) (t : Tree) :
+    ((zigzag c d t).map Tree.id).Perm ((preImpl c d t).map Tree.id) := by
+  rw [preorder_eq, zigzag_eq]
+  exact ((alternate_flatten_perm _ _).trans (layers_perm_preL _)).filter _
+
+/-- distinct identities in the input ⇒ no node is yielded twice (by any of the iterators, via
+    the permutation theorems above) -/
+theorem pre_nodup (c : Cfg) (d : Nat) (t : Tree) (h : (pre t).Nodup) :
+    ((preImpl c d t).map Tree.id).Nodup := by
+  rw [preorder_eq]
+  have h1 : (preL [t]).Nodup := by simpa [preL] using h
+  exact ((List.filter_sublist).trans (preL_gateL_sublist c d [t])).nodup h1
+
+/-- a filter condition yields exactly the subsequence of nodes satisfying it
+    (stated for all four generic iterators) -/
+theorem filter_subsequence (c : Cfg) (d : Nat) (t : Tree) :
+    let c0 : Cfg := { c with filt := fun _ => true }
+    (preImpl c d t).map Tree.id = ((preImpl c0 d t).map Tree.id).filter c.filt ∧
+    (postImpl c d t).map Tree.id = ((postImpl c0 d t).map Tree.id).filter c.filt ∧
+    (levelorder c d t).map Tree.id = ((levelorder c0 d t).map Tree.id).filter c.filt ∧
+    (zigzag c d t).map Tree.id = ((zigzag c0 d t).map Tree.id).filter c.filt := by
+  intro c0
+  have hg : ∀ d ts, gateL c0 d ts = gateL c d ts := by
+    intro d ts
+    have hadm : ∀ d t, c0.admit d t = c.admit d t := fun _ _ => rfl
+    suffices h : (∀ (t : Tree) d, gate c0 d t = gate c d t) by
+      induction ts with
+      | nil => rfl
+      | cons t ts ih => simp [gateL, hadm, h, ih]
+    intro t
+    induction t using Tree.ind with
+    | h i n a cs ihc =>
+      intro d
+      simp only [gate]
+      congr 1
+      induction cs with
+      | nil => rfl
+      | cons x xs ihx =>
+        have h1 := ihc x List.mem_cons_self (d + 1)
+        have h2 := ihx (fun y hy => ihc y (List.mem_cons_of_mem _ hy))
+        simp [gateL, hadm, h1, h2]
+  refine ⟨?_, ?_, ?_, ?_⟩
+  · rw [preorder_eq, preorder_eq, hg]; simp [c0]
+  · rw [postorder_eq, postorder_eq, hg]; simp [c0]
+  · rw [levelorder_eq, levelorder_eq, hg]
+    have : (List.filter c0.filt (layersL (gateL c d [t])).flatten) = (layersL (gateL c d [t])).flatten :=
+      List.filter_eq_self.2 (fun _ _ => rfl)
+    rw [this]
+  · rw [zigzag_eq, zigzag_eq, hg]
+    have : (List.filter c0.filt (alternate false (layersL (gateL c d [t]))).flatten)
+        = (alternate false (layersL (gateL c d [t]))).flatten :=
+      List.filter_eq_self.2 (fun _ _ => rfl)
+    rw [this]
+
+/-- a stop condition removes exactly the subtrees rooted at nodes satisfying it and `max_depth`
+    keeps exactly the nodes whose depth does not exceed it: a node is in the gated tree iff it
+    and all its ancestors up to the start node pass the gate -/
+theorem gate_mem_iff (c : Cfg) (d : Nat) (t : Tree) (i : Nat) :
+    i ∈ preL (gateL c d [t]) ↔ Kept c d [t] i :=
+  mem_preL_gateL c d [t] i
+
+/-- pre-order: a parent precedes all its descendants, subtrees of siblings follow left to right -/
+theorem preorder_parent_before_child (i : Nat) (n : Str) (a : Attrs) (cs : List Tree) :
+    pre (.node i n a cs) = i :: (cs.map pre).flatten := by
+  simp only [pre]
+  congr 1
+  induction cs with
+  | nil => rfl
+  | cons c cs ih => simp [preL, ih]
+
+/-- post-order: all descendants precede the parent, subtrees of siblings left to right -/
+theorem postorder_child_before_parent (i : Nat) (n : Str) (a : Attrs) (cs : List Tree) :
+    post (.node i n a cs) = (cs.map post).flatten ++ [i] := by
+  simp only [post]
+  congr 1
+  induction cs with
+  | nil => rfl
+  | cons c cs ih => simp [postL, ih]
+
+/-! ### non-vacuity: a concrete tree exercising gate, stop and filter -/
+
+private def ex : Tree :=
+  .node 0 [] [] [.node 1 [] [] [.node 3 [] [] [], .node 4 [] [] [.node 6 [] [] []]],
+                 .node 2 [] [] [.node 5 [] [] []]]
+private def exCfg : Cfg := { filt := fun i => i != 3, stop := fun i => i == 2, maxDepth := 3 }
+
+example : (preImpl exCfg 1 ex).map Tree.id = [0, 1, 4] := by decide
+example : (zigzag exCfg 1 ex).map Tree.id = [0, 1, 4] := by decide
+example : (levelordergroup exCfg 1 ex).map (·.map Tree.id) = [[0], [1], [4]] := by decide
+example : (pre ex).Nodup := by decide
+example : Kept exCfg 1 [ex] 4 :=
+  .under (t := ex) (List.mem_singleton.2 rfl) (by decide)
+    (.under (t := .node 1 [] [] [.node 3 [] [] [], .node 4 [] [] [.node 6 [] [] []]])
+      (by simp [ex]) (by decide)
+      (.root (t := .node 4 [] [] [.node 6 [] [] []]) (by simp) (by decide)))
+
+end C04
